@@ -560,6 +560,19 @@ func genScenario(rng *rand.Rand) (scenCfg, []envEvent, []inst.Window, time.Durat
 			envEvent{at: tr, kind: "post", a: a, mode: "resolve"},
 			envEvent{at: tr + time.Duration(200+rng.Intn(1500))*time.Millisecond, kind: "reload"})
 	}
+	if !flap && len(cfg.Integs) >= 2 && cfg.Alt == nil && rng.Intn(4) == 0 {
+		// one integration of the receiver fails for good (every flush runs into its deadline) while
+		// its sibling is healthy and a group stays unchanged for longer than repeat_interval: the
+		// sibling's repeats must still arrive on time
+		mt := cfg.maxT()
+		t0 := 3*time.Second + 611*time.Millisecond
+		end := t0 + mt.gw + mt.ri + 6*mt.gi + time.Minute
+		ws = append(ws, inst.Window{Recv: "r1", Integ: cfg.Integs[1].Name, From: 1000, To: int64(end / time.Millisecond), Kind: "rec"})
+		for t := t0; t < end; t += 4 * time.Minute {
+			evs = append(evs, envEvent{at: t + time.Duration(len(evs)%97)*time.Millisecond, kind: "post", a: "A2", mode: "fire"})
+		}
+		horizon = max(horizon, end+mt.gi)
+	}
 	if cfg.AltNoIv && len(cfg.Routes[0].Mute) > 0 {
 		// a group is muted by its route's interval, then a reload takes the interval off the route:
 		// the following flushes notify and the API no longer reports the group as muted
